@@ -9,6 +9,6 @@ type Part struct {
 }
 
 // Parts lists the sub-checks by name.
-var Parts = map[string]Part{
-	"C14": {"C14", C14},
-}
+var Parts = map[string]Part{}
+
+func init() { Parts["C14"] = Part{"C14", C14} }
